@@ -90,15 +90,20 @@ func relsPathFor(part string) string {
 // Rel is one <Relationship>.
 type Rel struct{ ID, Type, Target string }
 
-func relsXML(rels []Rel) string {
+func relsXML(rels []Rel) string { return relsXMLSp(rels, Spelling{}) }
+
+// relsXMLSp renders a relationships part in the given spelling (no foreign attributes:
+// relationships parts must not use Markup Compatibility, OPC 8.x).
+func relsXMLSp(rels []Rel, sp Spelling) string {
 	var b strings.Builder
-	b.WriteString(xmlDecl)
 	b.WriteString(`<Relationships xmlns="http://schemas.openxmlformats.org/package/2006/relationships">`)
 	for _, r := range rels {
-		b.WriteString(`<Relationship Id="` + esc(r.ID) + `" Type="` + esc(r.Type) + `" Target="` + esc(r.Target) + `"/>`)
+		b.WriteString(sp.sep())
+		b.WriteString(sp.el("Relationship", []attr{{"Id", r.ID}, {"Type", r.Type}, {"Target", r.Target}}))
 	}
+	b.WriteString(sp.sep())
 	b.WriteString(`</Relationships>`)
-	return b.String()
+	return sp.doc(xmlDecl, b.String())
 }
 
 // Override is one <Override> of [Content_Types].xml.
